@@ -345,6 +345,65 @@ pub use self::hostile::Ty;
     return mods
 
 
+def prelude_typed_field_modules(start):
+    """fields whose *types* are the prelude items the generated code itself mentions (Result, Option, Ordering, PhantomData): an import or
+    alias introduced inside the generated body (`use ::core::fmt::Result;`) would capture the user's type"""
+    body = '''use crate::support::dbg::*;
+use core::marker::PhantomData;
+pub fn fmt_r(_v: &Result<u8, u8>, f: &mut core::fmt::Formatter<\'_>) -> core::fmt::Result { f.write_str("r") }
+pub fn fmt_o(_v: &Option<u8>, f: &mut core::fmt::Formatter<\'_>) -> core::fmt::Result { f.write_str("o") }
+pub fn fmt_g(_v: &Ordering, f: &mut core::fmt::Formatter<\'_>) -> core::fmt::Result { f.write_str("g") }
+#[derive(Educe)]
+#[educe(Debug(name = false), Clone, PartialEq, Eq, PartialOrd, Ord, Hash)]
+pub struct St { #[educe(Debug(method(fmt_r)))] pub r: Result<u8, u8>, pub o: Option<u8>, #[educe(Debug(method(fmt_o)))] pub p: Option<u8>, #[educe(Debug(method(fmt_g)))] pub g: Ordering, #[educe(Debug(ignore))] pub m: PhantomData<u8> }
+#[derive(Educe)]
+#[educe(Debug, Clone, PartialEq, Eq, PartialOrd, Ord, Hash)]
+pub struct Tu(#[educe(Debug(method(fmt_r)))] pub Result<u8, u8>, pub Option<u8>, #[educe(Debug(method(fmt_g)))] pub Ordering);
+#[derive(Educe)]
+#[educe(Debug, Clone, PartialEq, Eq, PartialOrd, Ord, Hash)]
+pub enum En {
+    #[educe(Debug(name = false))]
+    A { #[educe(Debug(method(fmt_r)))] r: Result<u8, u8>, o: Option<u8> },
+    #[educe(Debug(name = false))]
+    B(#[educe(Debug(method(fmt_o)))] Option<u8>, #[educe(Debug(method(fmt_r)))] Result<u8, u8>),
+    C { #[educe(Debug(method(fmt_g)))] g: Ordering },
+}
+fn expect(b: &Buf, want: &[u8]) -> bool { if b.overflow || b.n != want.len() { return false; } let mut i = 0; while i < want.len() { if b.b[i] != want[i] { return false; } i += 1; } true }
+'''
+    h1 = Harness('h_debug', unwind=48, covers=['reached'])
+    body += h1.attrs() + '''pub fn h_debug() {
+    let s = St { r: Ok(1), o: None, p: Some(2), g: Ordering::Less, m: PhantomData };
+    let (b, r) = render(&s, false);
+    kani::cover!(true, "reached");
+    assert!(r.is_ok() && expect(&b, b"{r: r, o: None, p: o, g: g}"), "map-style struct Debug with prelude-typed method fields");
+    let (b, r) = render(&Tu(Err(3), None, Ordering::Equal), false);
+    assert!(r.is_ok() && expect(&b, b"Tu(r, None, g)"), "tuple struct Debug with prelude-typed method fields");
+    let (b, r) = render(&En::A { r: Ok(1), o: None }, false);
+    assert!(r.is_ok() && expect(&b, b"{r: r, o: None}"), "map-style variant Debug");
+    let (b, r) = render(&En::B(None, Ok(1)), false);
+    assert!(r.is_ok() && expect(&b, b"(o, r)"), "bare tuple variant Debug");
+    let (b, r) = render(&En::C { g: Ordering::Greater }, false);
+    assert!(r.is_ok() && expect(&b, b"C { g: g }"), "named variant Debug");
+}
+'''
+    h2 = Harness('h_values', unwind=8, covers=['reached'])
+    body += h2.attrs() + '''pub fn h_values() {
+    let (p, q, x, y): (u8, u8, u8, u8) = (kani::any(), kani::any(), kani::any(), kani::any());
+    let mk = |a: u8, b: u8| St { r: if a % 2 == 0 { Ok(a) } else { Err(a) }, o: if b % 3 == 0 { None } else { Some(b) }, p: Some(b), g: Ordering::Equal, m: PhantomData };
+    let key = |s: &St| (s.r, s.o, s.p, s.g);
+    let (a, b) = (mk(p, q), mk(x, y));
+    kani::cover!(true, "reached");
+    assert!((a == b) == (key(&a) == key(&b)), "eq on prelude-typed fields");
+    assert!(Ord::cmp(&a, &b) == key(&a).cmp(&key(&b)) && PartialOrd::partial_cmp(&a, &b) == Some(key(&a).cmp(&key(&b))), "cmp on prelude-typed fields");
+    let c = Clone::clone(&a);
+    assert!(key(&c) == key(&a), "clone on prelude-typed fields");
+    if key(&a) == key(&b) { assert!(rec_of(&a).same(&rec_of(&b)), "hash on prelude-typed fields"); }
+}
+'''
+    return [Module(f'm{start:04d}', 'fields typed Result / Option / Ordering / PhantomData (prelude names the generated code mentions), with Debug methods, in map-style, tuple and named shapes', body, [h1, h2],
+                   sample=dict(field_types='Result<u8, u8>, Option<u8>, Ordering, PhantomData<u8>'), functions=FUNCTIONS)]
+
+
 def field_type_inherent_modules(start):
     """field types with inherent methods named like the trait methods (and misbehaving): every template must reach the trait impl"""
     body = '''use crate::support::dbg::*;
@@ -537,6 +596,8 @@ def gen(tier, seed):
         m.cfgid = 'Union:' + m.cfgid + f' @ shadow={int(shadow)} inherent={int(inherent)}'
         mods.append(m)
         n += 1
+    n = len(mods)
+    mods += prelude_typed_field_modules(n)
     n = len(mods)
     mods += field_type_inherent_modules(n)
     n = len(mods)
